@@ -1,6 +1,7 @@
 import Verif.Gen.Versions
 import Verif.Lemmas.Batching
 import Verif.Lemmas.StdioIn
+import Verif.Lemmas.StdioOut
 
 /-! # C13 — batches are accepted exactly for protocol versions older than 2025-06-18
 
@@ -232,6 +233,46 @@ example : (run exCfg init [.chunk [91, 49, 93, 10], .setVersion (some "2025-06-1
     .setVersion (some "2024-11-05".toList), .chunk [91, 49, 93, 10]]).2
     = [.deliver 1, .notify 2, .deliver 2, .reject, .deliver 1, .notify 2, .deliver 2] := by
   decide
+
+/-- **No version has been negotiated on a new connection.**  A client / transport object entered a second time starts
+without a version whatever was negotiated on the previous connection: a batch arriving before the new handshake is
+accepted, and after it the new version alone decides. -/
+theorem c13_new_connection_no_version (cfg : Cfg μ) (prev : St) (v : Option (List Char)) (a b : List Ev) :
+    (enter prev).batching = true
+    ∧ runSessions cfg prev [a ++ .setVersion v :: b]
+        = [(run cfg init a).2 ++ (run cfg { (run cfg init a).1 with batching := supportsBatching v } b).2] := by
+  refine ⟨by simp [enter, init, supportsBatching], ?_⟩
+  simp only [runSessions, enter]
+  rw [run_append]
+  simp [run, step]
+
+/-! ### Rejections while the client's own traffic is backed up
+
+The rejection is written by the reader task; the messages the application has put on the write stream are written by
+the writer task.  Whatever is queued there - nothing, one message, a hundred messages behind a large one the child is
+slow to take - the child's stdin receives the interleaving of the two tasks' `send()`s: -/
+
+open Verif.Model.StdioOut Verif.Lemmas.StdioOut in
+/-- **Every rejected batch is answered, whatever the client has queued for the child.**  For every outbound backlog
+`queued` (any length: the 100-slot outgoing stream full or not) and every schedule of the two writers, the child receives
+all `rejections` error lines of the reader - one per batch received without batching, in order - besides the backlog's
+lines: none is lost, none is doubled. -/
+theorem c13_rejections_reach_child_under_backpressure (cfg : Cfg μ) (evs : List Ev) (sty : Verif.Model.Json.Style)
+    (err : Verif.Model.Json.Json) (queued : List Outbound) (m : List (List Nat))
+    (hm : Interleaving (sends sty queued) (rejectionSends sty (List.replicate (rejections (run cfg init evs).2) err)) m) :
+    (rejectionSends sty (List.replicate (rejections (run cfg init evs).2) err)).Sublist m
+    ∧ (rejectionSends sty (List.replicate (rejections (run cfg init evs).2) err)).length = rejections (run cfg init evs).2
+    ∧ m.length = (sends sty queued).length + rejections (run cfg init evs).2 := by
+  have hlen : ∀ n : Nat, (rejectionSends sty (List.replicate n err)).length = n := by
+    intro n
+    induction n with
+    | zero => simp [rejectionSends, sends]
+    | succ k ih =>
+      simp only [rejectionSends, sends, List.replicate_succ, List.map_cons, List.filterMap_cons, ser, Option.map_some,
+        List.length_cons] at ih ⊢
+      omega
+  refine ⟨interleaving_sublist_right hm, hlen _, ?_⟩
+  rw [interleaving_length hm, hlen]
 
 end transport
 
